@@ -262,9 +262,14 @@ def gen(rng, tier):
                         else:
                             steps = [["recv"], ["send", {"type": "websocket.accept"}], ["recv"],
                                      ["send", {"type": "websocket.send", "text": "hello"}], ["recv"]]
-                        for at in range(len(steps) + 1):
+                        for at in list(range(len(steps) + 1)) + (["denial-announced"] if proto == "ws.handshake" else []):
                             if proto == "ws.session" and at < 2:
                                 continue
+                            if at == "denial-announced":
+                                # websocket.http.response.start is only taken note of, nothing is on the wire before the first body message:
+                                # failing between the two, the application has started no response
+                                steps = [["recv"], ["send", {"type": "websocket.http.response.start", "status": 401, "headers": [(b"x-why", b"auth")]}]]
+                                at = 2
                             script = _inject(steps, at, kind)
                             data = ws.handshake(path=b"/t%d" % tag)
                             client = [["feed", data], ["settle"]]
@@ -580,6 +585,13 @@ def check(case, obs, tally):
                         "detail": "WebSocket over HTTP/2, application %s %s: the stream was neither ended nor reset%s (status %r, %d body bytes)" % (
                             "raised" if kind == "raise" else "returned", t["where"], "" if not t["where"].startswith("after-accept") else " and no close frame was sent",
                             None if s1 is None else s1.status, 0 if s1 is None else len(s1.data))})
+        if t["where"] == "after-rejection-start":
+            # (nothing of the announced response was on the wire: "a 500 response when no response had been started")
+            tally.clause("pre-start-500")
+            if s1 is None or s1.status != 500:
+                out.append({"clause": "pre-start-500", "sig": "C05.no-500/wsh2/denial-announced",
+                            "detail": "application %s after websocket.http.response.start, before any body message: stream 1 %r, expected a 500" % (
+                                "raised" if kind == "raise" else "returned", None if s1 is None else (s1.status, len(s1.data), s1.ended, s1.rst))})
         if t["where"] == "mid-rejection-body" and s1 is not None and s1.ended and s1.rst is None:
             out.append({"clause": "truncated", "sig": "C05.falsely-complete/wsh2/rejection-body",
                         "detail": "the response to the handshake was cut short by the application's failure but ended with END_STREAM"})
@@ -588,7 +600,7 @@ def check(case, obs, tally):
             out.append({"clause": "siblings", "sig": "C05.sibling-broken/wsh2", "detail": "sibling request: %r" % (None if s3 is None else (s3.status, bytes(s3.data)[:20], s3.ended, s3.rst),)})
     else:
         rx = obs.reactor
-        if not t["accepted"] and t["at"] < 2:
+        if not t["accepted"] and (t["at"] < 2 or t["steps"] == 2):
             tally.clause("pre-start-500")
             if rx.status != 500:
                 out.append({"clause": "pre-start-500", "sig": "C05.no-500/ws/%s" % kind,
